@@ -187,6 +187,21 @@ def check_case(case, ctx, tm, fsr, mr):
         Trel = se3.inv(mk(ta).gTM()) @ mk(tb).gTM()
         want = math.sqrt(np.linalg.norm(Trel[:3, 3]) ** 2 + se3.rot_angle(Trel[:3, :3]) ** 2)
         cmp("arcdistance", "arcdistance", [float(np.asarray(ad).reshape(-1)[0])], [want], scp, 0.0 < se3.rot_angle(Trel[:3, :3]) < tol.BAND)
+    # same-orientation pairs (the planner's common case): a pose against itself, against a copy shifted in its own frame, and against
+    # the same rotation vector at another origin - the relative rotation is exactly the identity, the arc distance the shift
+    A4 = mk(ta).gTM()
+    for nm, other, want in (("itself", lambda: mk(ta), 0.0),
+                            ("shifted_locally", lambda: mk(ta) @ mk(np.concatenate([pc, np.zeros(3)])), float(np.linalg.norm(pc))),
+                            ("same_rotation_other_origin", lambda: mk(np.concatenate([pb, ta[3:]])), float(np.linalg.norm(pb - pa)))):
+        ad2 = guard("arcdistance", "arcdistance.same_orientation", lambda: fsr.arcDistance(mk(ta), other()))
+        if ad2 is not None:
+            v = float(np.asarray(ad2).reshape(-1)[0])
+            ctx.clause("arcdistance")
+            if not (abs(v - want) <= 1e-8 * scp):        # NaN fails as well
+                ctx.violation("arcdistance", "arcdistance.same_orientation/" + nm, {"got": v, "want": want}, case)
+    dself = guard("distance.metric", "distance.same", lambda: float(fsr.distance(mk(ta), mk(ta) @ mk(np.concatenate([pc, np.zeros(3)])))))
+    if dself is not None:
+        cmp("distance.metric", "distance.shifted_locally", [dself], [float(np.linalg.norm(pc))], scp)
 
     # ---- gap closing -----------------------------------------------------------------------------
     delta = case["delta"]
